@@ -18,7 +18,16 @@ go test -vet=off -count=1 "$PKG" -run "$RUN" ${SEED_EXTRA:-} >> "$LOG" 2>&1; b=$
 rm -f "$DEST"
 echo "== existing tests WITH patch (expect PASS): $*" >> "$LOG"
 go build ./... >> "$LOG" 2>&1; c0=$?
-go test -vet=off -count=1 -p 4 "$@" 2>&1 | grep -v "no test files" >> "$LOG"; c=${PIPESTATUS[0]}
+if [ "${1:-}" = "ALL" ]; then
+  # whole suite; the only failure tolerated is the one that also fails on the untouched tree
+  go test -vet=off -count=1 -p 6 -timeout 25m ./... 2>&1 | grep -v "no test files" | grep -v "^ok" > "$D/suite.log"
+  grep -E "^(--- FAIL|FAIL|panic)" "$D/suite.log" | grep -v "TestInitConfigNonNotExistError" | grep -v "^FAIL$" | grep -v "haqq/client[[:space:]]" > "$D/suite.unexpected"
+  cat "$D/suite.unexpected" >> "$LOG"
+  if [ -s "$D/suite.unexpected" ]; then c=1; else c=0; fi
+  rm -f "$D/suite.unexpected" "$D/suite.log"
+else
+  go test -vet=off -count=1 -p 4 "$@" 2>&1 | grep -v "no test files" >> "$LOG"; c=${PIPESTATUS[0]}
+fi
 cd /; git -C /repo worktree remove --force "$WT"
 echo "RESULT demo_without=$a demo_with=$b build=$c0 tests_with=$c" | tee -a "$LOG"
 [ $a -eq 0 ] && [ $b -ne 0 ] && [ $c0 -eq 0 ] && [ $c -eq 0 ]
